@@ -44,5 +44,7 @@ RunOk(rq, job, obs) ==
 (* a request that must not run (--no-run): the job does not start, the journal says cancelled *)
 NoRunOk(obs) == obs.starts = 0 /\ obs.cancelled
 
-ExecOk(rq, job, obs) == IF rq.norun THEN NoRunOk(obs) ELSE RunOk(rq, job, obs) /\ RoutingOk(rq, job, obs)
+(* a request whose shell does not exist: nothing is started, and the journal does not claim a run that ended well *)
+NoSpawnOk(obs) == obs.starts = 0 /\ ~(obs.jexit = 0 /\ obs.jsig = 0) /\ obs.tmpleft = <<>>
+ExecOk(rq, job, obs) == IF rq.norun THEN NoRunOk(obs) ELSE IF rq.nospawn THEN NoSpawnOk(obs) ELSE RunOk(rq, job, obs) /\ RoutingOk(rq, job, obs)
 =============================================================================
